@@ -155,7 +155,15 @@ def compare(deck, path, pre, prop, flags=None, what=('regions', 'compo', 'valid'
         res['exception'] = path.value
         return res
     text = path.value.text
-    t4 = t4sem.parse(text)
+    try:
+        t4 = t4sem.parse(text)
+    except t4sem.T4ParseError as e:
+        # the written text cannot even be read as a TRIPOLI-4 geometry
+        res['obligations'] += 1
+        v = make_violation(deck, prop, base, path, None, 'validate', 'written file is not valid: %s' % e, flags,
+                           sig={'kind': 'structure', 'problem': 'unparsable'})
+        (res['violations'] if v else res['inconclusive']).append(v or 'structure: %s' % e)
+        return res
     ctx = t4sem.Ctx()
     ev = t4sem.Evaluator(t4, POINT, ctx)
     if 'valid' in what:
